@@ -469,6 +469,56 @@ func checkC21(c *Ctx) *report.Result {
 			r.Ob("Q-clock", ok, "fan-out routine "+fnName(fan)+" runs unconditionally once per clock", firstPos(c, fan), detail)
 		}
 	}
+	// the hold a trigger puts on its channel's clock lasts for the machine cycle of the trigger only: after the audio
+	// machine-cycle step, from any state, every boolean of a channel that its per-clock call is conditional on is clear
+	{
+		step := c.methodOf("audio.Audio", "EndMachineCycle")
+		auds := c.objectsOfType("audio.Audio")
+		if step == nil || len(auds) == 0 {
+			r.Fail("unresolved", "Q-clock", "audio machine-cycle step", "", "not found")
+		} else {
+			restore := c.cutDecoder(nil)
+			ev := c.evalCall(nil, step, []ai.Value{ptrTo(auds[0])}, nil, nil)
+			restore()
+			n := 0
+			var bad []string
+			for _, kc := range c.boolCellsLoaded(ev) {
+				for k := 0; k < 4; k++ {
+					if kc.Obj != chObjs[k].ID || kc.Path == enabledPath[k] {
+						continue
+					}
+					// is the per-clock routine's call conditional on it? (set it and see whether the channel's timer still moves)
+					tk := tickOf(chObjs[k])
+					if tk == nil {
+						continue
+					}
+					held := c.evalCall(nil, step, []ai.Value{ptrTo(auds[0])}, nil, func(st *ai.State) { st.SetCell(chObjs[k], kc.Path, ai.NewConstBool(true)) })
+					called := false
+					for _, f := range held.Callees {
+						if f == tk {
+							// (two square channels share the routine: look at the timer cell instead)
+							called = true
+						}
+					}
+					_ = called
+					stored := false
+					for _, p := range c.storedCellsOf(held, chObjs[k]) {
+						if p == ".timer" {
+							stored = true
+						}
+					}
+					if stored {
+						continue // not a hold flag: the timer runs with it set
+					}
+					n++
+					if b, isc := boolConst(c.cellBool(ev.Post, chObjs[k], kc.Path)); !isc || b {
+						bad = append(bad, fmt.Sprintf("channel %d %s after the step: %s", k+1, kc.Path, ai.ValueString(c.cellBool(ev.Post, chObjs[k], kc.Path))))
+					}
+				}
+			}
+			r.Ob("Q-clock", n >= 4 && len(bad) == 0, "the trigger hold of every channel is released by the audio step of the same machine cycle, whatever the state", firstPos(c, step), fmt.Sprintf("%d hold flags found (want one per channel); not provably clear afterwards: %v", n, bad))
+		}
+	}
 	_ = it
 	return r
 }
